@@ -9,8 +9,12 @@
 // directory (<root>/inst) and runs the real cmd/startup.Main() — configuration file → derived config → log file →
 // StartSiglensServer: both HTTP servers with the real routers, all background loops.  It performs NO request itself:
 // the parent talks to the two ports over TCP, so that the death of this process (an unrecovered panic on a request
-// goroutine, a log.Fatal, the runtime giving up) is observed from outside as what it is.  Stdin carries two commands:
-// "flush" (the flush calls of ShutdownSiglensServer, so that the bootstrap data is in its final place) and EOF (exit).
+// goroutine, a log.Fatal, the runtime giving up) is observed from outside as what it is.  Stdin carries the commands
+// "flush" (the flush calls of ShutdownSiglensServer, so that the bootstrap data is in its final place), EOF (exit) and,
+// for the `gl` lines of suite alive (the goroutines of a query after its terminal state, c17_alive_gor.go):
+// "census" (goroutines of query-owned code by creation site + sizes of the running / waiting tables),
+// "qtimeout <secs>" (config.SetQueryTimeoutSecs), "qhook <delay ms> <0|1>" (hooks.GlobalHooks.FilterQsrsHook: the segment
+// lookup of every query takes that long / fails; "qhook 0 0" removes it), "qcancel" (query.CancelQuery of every running query).
 package main
 
 import (
@@ -118,6 +122,9 @@ queryTimeoutSecs: 20
 			_ = vtable.FlushAliasMapToFile()
 			scroll.ForcedFlushToScrollFile()
 			fmt.Fprintln(out, "@@ok")
+			out.Flush()
+		} else if ans, ok := c17gWorkerCommand(strings.Fields(line)); ok {
+			fmt.Fprintln(out, "@@"+ans)
 			out.Flush()
 		}
 		if err != nil {
